@@ -55,9 +55,21 @@ def cases(draw, stratum='any'):
             if len({s_['app'] for s_ in h['steps']}) == 2:
                 break
     else:
-        h = draw(H.histories(feats, max_steps=1, min_steps=1, allow_new_model=False,
-                             allow_new_app=False, max_len=3,
-                             kinds=FIELD_KINDS + ['DeleteModel', 'RenameModel']))
+        # (redrawn a few times until the sequence is free of the optimiser-finding
+        # flags that check() would reject: construction over rejection)
+        from .. import findings as F
+        for _ in range(4):
+            h = draw(H.histories(feats, max_steps=1, min_steps=1, allow_new_model=False,
+                                 allow_new_app=False, max_len=3,
+                                 kinds=FIELD_KINDS + ['DeleteModel', 'RenameModel']))
+            try:
+                fl, _t = F.c03_flags({'mode': 'walk', 'spec': H.versions(h)[0]['spec'],
+                                      'seq': copy.deepcopy(H.pending_sequence(h, 0)),
+                                      'cuts': []}, {})
+            except Exception:
+                continue
+            if not any(fl.values()):
+                break
     vers = H.versions(h)
     if not h['steps']:
         return {'history': h, 'rows': {}, 'links': {}, 'perturb': {'kind': 'none', 'i': 0, 'j': 0,
